@@ -219,7 +219,7 @@ def units(tier, seed):
     out = []
 
     def add(name, func, **kw):
-        out.append(Unit('C01/' + name, 'symx.props.c01', func, kw, {'property': PROP}))
+        out.append(Unit('C01/' + name, 'symx.props.c01', func, kw, {'property': PROP, 'path_budget': 200}))
 
     if tier == 'quick':
         cfgs = [(5, 1, ()), (4, 2, (2,))]
